@@ -118,7 +118,64 @@ func bitTest(l Lit, f *types.Var) (x ssa.Value, set bool, ok bool) {
 	if m, ok := try(b, a); ok {
 		return m, op == token.EQL, true
 	}
+	// general form: an AND tree with one load of the field and one mask leaf (a constant or a parameter), compared with
+	// the mask itself or with 0; further conjuncts (the kernel's readiness mask, say) only strengthen a positive test
+	tree, other := a, b
+	if _, isAnd := stripConv(tree).(*ssa.BinOp); !isAnd {
+		tree, other = b, a
+	}
+	var fieldLoads, extra int
+	var mask ssa.Value
+	var walk func(v ssa.Value, d int)
+	walk = func(v ssa.Value, d int) {
+		v = stripConv(v)
+		if bo, ok := v.(*ssa.BinOp); ok && bo.Op == token.AND && d < 6 {
+			walk(bo.X, d+1)
+			walk(bo.Y, d+1)
+			return
+		}
+		switch {
+		case loadOfField(v, f):
+			fieldLoads++
+		case mask == nil && isMaskLeaf(v):
+			mask = v
+		default:
+			extra++
+		}
+	}
+	if bo, ok := stripConv(tree).(*ssa.BinOp); ok && bo.Op == token.AND {
+		walk(bo, 0)
+	}
+	if fieldLoads == 1 && mask != nil {
+		set, known := false, false
+		switch {
+		case sameValue(mask, other):
+			set, known = op == token.EQL, true
+		case isConstInt(other, 0) && singleBit(mask):
+			set, known = op == token.NEQ, true
+		}
+		if known && (extra == 0 || set) {
+			return mask, set, true
+		}
+	}
 	return nil, false, false
+}
+
+func isMaskLeaf(v ssa.Value) bool {
+	if _, ok := constInt(v); ok {
+		return true
+	}
+	_, isPrm := stripConv(v).(*ssa.Parameter)
+	return isPrm
+}
+
+// singleBit: a constant with exactly one bit set, or a parameter (a direction flag handed to a shared helper).
+func singleBit(v ssa.Value) bool {
+	if k, ok := constInt(v); ok {
+		return k > 0 && k&(k-1) == 0
+	}
+	_, isPrm := stripConv(v).(*ssa.Parameter)
+	return isPrm
 }
 
 // sameValue: identical SSA value, or equal constants.
@@ -259,7 +316,10 @@ func runC03(c *Ctx) {
 	c.rule("C03-R1", "on every path of every function that updates the pending counter or Slot.Events, the net change of the counter equals the events performed on that path; a refused registration changes neither (R2)", 14)
 	// helpers that do one half of a balanced update (a queue method that appends without counting, say) are summarised
 	// and judged where they are called: every path of the helper has the same counter delta and the same number of appends
-	type c03sum struct{ delta, appends int64 }
+	type c03sum struct {
+		delta, appends int64
+		clearParam     int // index of the parameter whose interest bit the helper clears without testing it (-1: none)
+	}
 	summaries := map[*ssa.Function]c03sum{}
 	for _, fn := range internalFuncs {
 		if fn.Parent() != nil || fn.Object() == nil || fn.Object().Exported() || len(p.callers(fn)) == 0 {
@@ -277,7 +337,13 @@ func runC03(c *Ctx) {
 			if st, ok := in.(*ssa.Store); ok {
 				fv, _ := fieldAddrOf(st.Addr)
 				if fv == events {
-					plain = false
+					// an untested clear of the bit named by a parameter: summarised, the test is owed by the callers
+					ev := classifyEventsStore(st, events)
+					if _, isPrm := stripConv(ev.mask).(*ssa.Parameter); ev.kind == "clear" && ev.mask != nil && isPrm {
+						relevant = true
+					} else {
+						plain = false
+					}
 				}
 				if fv == posts && isAppendOf(st.Val) {
 					relevant = true
@@ -299,8 +365,27 @@ func runC03(c *Ctx) {
 		var sum c03sum
 		uniform := true
 		for i, path := range paths {
-			var cur c03sum
+			cur := c03sum{clearParam: -1}
+			tested := false
+			for _, l := range path.Lits {
+				if _, _, ok := bitTest(l.Lit, events); ok {
+					tested = true
+				}
+			}
 			for _, in := range path.Instrs() {
+				if st, ok := in.(*ssa.Store); ok {
+					if fv, _ := fieldAddrOf(st.Addr); fv == events {
+						ev := classifyEventsStore(st, events)
+						for k, q := range fn.Params {
+							if ev.mask != nil && stripConv(ev.mask) == ssa.Value(q) {
+								if cur.clearParam >= 0 || tested {
+									uniform = false
+								}
+								cur.clearParam = k
+							}
+						}
+					}
+				}
 				if d, ok := atomicAddDelta(in, pending); ok {
 					cur.delta += d
 				}
@@ -319,7 +404,7 @@ func runC03(c *Ctx) {
 				uniform = false
 			}
 		}
-		if uniform && sum.delta != sum.appends {
+		if uniform && (sum.delta != sum.appends || sum.clearParam >= 0) {
 			summaries[fn] = sum
 		}
 	}
@@ -400,6 +485,9 @@ func runC03(c *Ctx) {
 					if sum, ok := summaries[cc.StaticCallee()]; ok && cc.StaticCallee() != nil {
 						delta += sum.delta
 						appends += int(sum.appends)
+						if sum.clearParam >= 0 && sum.clearParam < len(cc.Args) {
+							evs = append(evs, evStore{"clear", cc.Args[sum.clearParam], nil})
+						}
 					}
 					if !cc.IsInvoke() && cc.StaticCallee() == nil {
 						if _, isB := cc.Value.(*ssa.Builtin); !isB {
